@@ -213,7 +213,7 @@ def run_case(ctx, name, params):
         r = ctx.rng("cd", params["seed"])
         n = r.choice([1, 2, 3, 3, 4, 5, 8, 13, 30])
         m = r.randint(1, 4)
-        kind = r.choice(["distinct", "distinct", "ties", "zero_range", "antichain"])
+        kind = r.choice(["distinct", "distinct", "ties", "zero_range", "antichain", "all_equal"])
         if kind == "distinct":
             cols = [r.sample([x / 8.0 for x in range(-400, 400)], n) for _ in range(m)]
             costs = [[cols[d][i] for d in range(m)] + [0] for i in range(n)]
@@ -221,6 +221,9 @@ def run_case(ctx, name, params):
             xs = sorted(r.sample(range(1000), n))
             costs = [[float(x), float(1000 - x)] + [r.uniform(0, 1) for _ in range(m - 2)] + [0] for x in xs]
             r.shuffle(costs)
+        elif kind == "all_equal":      # several designs with identical costs: every objective has zero range
+            base = gen.cost_vector(r, m, "grid")
+            costs = [list(base) + [0] for _ in range(n)]
         elif kind == "zero_range":
             costs = [[r.uniform(0, 1) for _ in range(m)] + [0] for _ in range(n)]
             z = r.randrange(m)
